@@ -5,20 +5,25 @@ from checklib import core
 
 C05_REL = ('rel:empty_is_prior', 'rel:closed_form', 'rel:stat_eq_data', 'rel:seq_eq_batch', 'rel:posterior_valid', 'rel:bayes',
            'rel:stat_counts_add', 'rel:panic_on_valid_input')
+C07_REL = ('rel:ln_f_stat_eq_sum', 'rel:ln_f_stat_state_independent', 'rel:stat_counts_add')
 C06_REL = ('rel:ln_m_empty', 'rel:chain_rule', 'rel:perm', 'rel:cached', 'rel:normalised')
 SITE = {'rel:empty_is_prior': 'StickBreaking.posterior', 'rel:closed_form': 'StickBreaking.posterior_from_suffstat',
         'rel:stat_eq_data': 'StickBreaking.posterior', 'rel:seq_eq_batch': 'StickBreaking.posterior_from_suffstat',
         'rel:posterior_valid': 'StickBreaking.posterior_from_suffstat', 'rel:bayes': 'StickBreaking.ln_f',
         'rel:stat_counts_add': 'StickBreakingDiscreteSuffStat.observe', 'rel:panic_on_valid_input': 'StickBreaking',
         'rel:ln_m_empty': 'StickBreaking.ln_m', 'rel:chain_rule': 'StickBreaking.ln_pp', 'rel:perm': 'StickBreaking.ln_m',
-        'rel:cached': 'StickBreaking.ln_pp_with_cache', 'rel:normalised': 'StickBreaking.pp'}
+        'rel:cached': 'StickBreaking.ln_pp_with_cache', 'rel:normalised': 'StickBreaking.pp',
+        'rel:ln_f_stat_eq_sum': 'StickBreakingDiscrete.ln_f_stat', 'rel:ln_f_stat_state_independent': 'StickBreakingDiscrete.ln_f_stat'}
 
 def stick_extra(pid, tier, seed):            # call from extra_run of C05.py (pid='C05') and C06.py (pid='C06'); merge the three lists
-    r = cases_c05s.run(tier, seed + (5 if pid == 'C05' else 6), harness=core.harness_path(), driver=core.driver_path(),
+    r = cases_c05s.run(tier, seed + {'C05': 5, 'C06': 6, 'C07': 7}[pid], harness=core.harness_path(), driver=core.driver_path(),
                        units=None if pid == 'C05' else (150 if tier == 'quick' else 2500))
-    rels = C05_REL if pid == 'C05' else C06_REL
+    rels = {'C05': C05_REL, 'C06': C06_REL, 'C07': C07_REL}[pid]
     ops05 = ('sb.posterior', 'sb.posterior_stat', 'sb.ln_f', 'sb.f', 'sb.breaks', 'sb.weights', 'sbstat.', 'sbd.')
-    mine = [m for m in r['mismatches'] if m[0].startswith(ops05) == (pid == 'C05')]
+    if pid == 'C07':
+        mine = [m for m in r['mismatches'] if m[0].startswith(('sbd.', 'sbstat.'))]
+    else:
+        mine = [m for m in r['mismatches'] if m[0].startswith(ops05) == (pid == 'C05')]
     obligations = [{'name': f'corr:StickBreaking({pid} ops, hand model Hand.StickConj)', 'kind': 'corr', 'ok': not mine and r['cases'] > 0,
                     'site': 'StickBreaking', 'detail': f"{r['cases']} lines, {len(mine)} mismatches",
                     'cases': [{'line': l[:3000], 'impl': a[:600], 'model': b[:600]} for l, a, b in mine[:3]],
@@ -31,7 +36,10 @@ def stick_extra(pid, tier, seed):            # call from extra_run of C05.py (pi
                             'cases': [{'line': c[:3000], 'impl': '', 'model': ''} for c in bad[:3]]})
         failures += [{'site': SITE[name], 'case': c[:3000], 'impl': '', 'expected': name, 'observed': 'value', 'detail': name} for c in bad[:5]]
     # accepted observations -> known findings (never VIOLATION): obs:ln_m_both_arm_underflow (C06), obs:ln_f_empty_weights_panics (C05)
-    if pid == 'C06':
+    if pid == 'C07':
+        failures += [{'site': 'StickBreakingDiscrete.ln_f_stat', 'case': c, 'impl': 'NaN', 'expected': 'sum of ln_f', 'observed': 'value',
+                      'detail': '0 * ln 0', 'cls': 'sbd_zero_weight_empty_slot'} for c in r['findings'].get('obs:ln_f_stat_nan_on_empty_slot_of_zero_weight', [])]
+    elif pid == 'C06':
         failures += [{'site': 'StickBreaking.ln_m', 'case': c, 'impl': '-inf', 'expected': 'finite ln_m', 'observed': 'value',
                       'detail': 'both-arm underflow', 'cls': 'sb_both_arm_underflow'} for c in r['findings'].get('obs:ln_m_both_arm_underflow', [])]
     else:
